@@ -232,11 +232,12 @@ def execute(sc, tape):
         P.set_n_parallel_jobs(os.cpu_count())
 
     # ---- compressed side
-    if list(compressed.keys()) != names:
-        bad("key_order", f"compressed keys {list(compressed.keys())} != input order {names}")
-    if list(dd.data.keys()) != names:
-        bad("key_order", f"decompress keys {list(dd.data.keys())} != input order {names}")
-    if viols:
+    if list(compressed.keys()) != names or list(dd.data.keys()) != names:
+        # the *order* of the returned dicts matters to the joiner (judged under C20), not to C15
+        info["probes"]["key_order_differs"] = 1
+    if set(compressed.keys()) != set(names) or set(dd.data.keys()) != set(names):
+        bad("einsum_missing", f"compressed keys {list(compressed.keys())} / decompress keys "
+            f"{list(dd.data.keys())} are not the input Einsums {names}")
         return viols, info
     index_of = {}  # einsum -> {(g,row): compressed index}
     for e in sc["einsums"]:
@@ -257,7 +258,7 @@ def execute(sc, tape):
                 return viols, info
             extra = [c for c in df.columns if c != col and c not in g["join"]]
             if extra:
-                bad("nonjoin_col_kept", f"{name} group {gi}: non-joining columns {extra} in compressed table")
+                info["probes"]["nonjoin_col_kept"] = 1  # wasteful, but loses nothing
             for ri in range(g["rows"]):
                 ci = int(df[col].iloc[ri])
                 if ci in seen:
@@ -402,8 +403,8 @@ def execute_real(sc, tape):
         return viols, info
     finally:
         P.set_n_parallel_jobs(os.cpu_count())
-    if list(compressed.keys()) != names or list(dd.data.keys()) != names:
-        bad("key_order", f"keys {list(compressed.keys())} / {list(dd.data.keys())} != input order {names}")
+    if set(compressed.keys()) != set(names) or set(dd.data.keys()) != set(names):
+        bad("einsum_missing", f"keys {list(compressed.keys())} / {list(dd.data.keys())} are not the input Einsums {names}")
         return viols, info
 
     def same(a, b):
@@ -429,7 +430,7 @@ def execute_real(sc, tape):
             jcols = [c for c in sdf.columns if col_used_in_joining(c)]
             extra = [c for c in df.columns if c != col and c not in jcols]
             if extra:
-                bad("nonjoin_col_kept", f"{n} group {gi}: {extra[:4]} kept in the compressed table")
+                info["probes"]["nonjoin_col_kept"] = 1
             for ri in range(len(df)):
                 ci = int(df[col].iloc[ri])
                 if ci in seen:
